@@ -4181,7 +4181,10 @@ def run_transl(ctx):
 
     data = [b"", b"\x00", b"\xff", b"\xff\xff", b"\x00" * 7, b"\xff" * 9, bytes(range(256)), bytes.fromhex("7e0400fe20100000000c60e1")]
     data += [bytes([v]) * k for v in (0, 1, 0x7F, 0x80, 0xCC, 0xFF) for k in (2, 3, 255, 256, 257, 514)]
-    data += [b"\xff" * k for k in (65534, 65536, 131070, 131072, 131074)]  # word sums around 2^16 .. 2^32: two carry passes
+    # two carry passes need a first fold that reaches 0x10000 again: word sum 0x1FFFF (ffff ffff 0001) and neighbours; the long
+    # all-ones strings (word sums around 2^32) cost the list-based driver O(n^2) — 40 s each — and run in the thorough tier only
+    data += [bytes.fromhex(h) for h in ("ffffffff0001", "ffffffff0000", "ffffffff0002", "fffffffe0002", "ffffffffffff0003", "ffff0001ffff", "0001ffffffff00")]
+    data += [b"\xff" * k for k in ((2046, 2048, 4095) if not ctx.thorough() else (65534, 65536, 131070, 131072, 131074))]
     data += [bytes(rng.randrange(256) for _ in range(rng.choice((1, 2, 3, 5, 8, 12, 13, 20, 31, 64, 100, 300, 1500)))) for _ in range(ctx.budget(400, 4000))]
     data += [bytes(rng.choice((0, 0xFF, 0xFE, 1)) for _ in range(rng.randrange(0, 40))) for _ in range(ctx.budget(200, 2000))]
     pairs = []
